@@ -38,7 +38,8 @@ def describe(c):
         elif s["op"] == "install":
             parts.append("install chart%d %s" % (s["chart"], vl.show(s["vals"])))
         else:
-            flag = {"default": "", "reset": " --reset-values", "reuse": " --reuse-values", "rtr": " --reset-then-reuse-values"}[s["mode"]]
+            names = {"default": "", "reset": " --reset-values", "reuse": " --reuse-values", "rtr": " --reset-then-reuse-values"}
+            flag = "".join(names[m] for m in s["mode"].split("+"))
             parts.append("upgrade%s chart%d %s%s" % (flag, s["chart"], vl.show(s["vals"]), " (cluster update fails)" if s.get("fail") else ""))
     return "[%s] %s" % (c.get("driver", "secret"), " ; ".join(parts))
 
@@ -167,7 +168,7 @@ def run(pid, tier, seed, replay=None):
     ends = set()
     for c in replayed:
         ends.add(json.dumps(c["steps"], sort_keys=True))
-    nontrivial = sum(1 for c in replayed if any(s["op"] == "rollback" or s["mode"] in ("reuse", "rtr", "reset") for s in c["steps"]))
+    nontrivial = sum(1 for c in replayed if any(s["op"] == "rollback" or s["mode"] not in ("", "default") for s in c["steps"]))
     cov = {
         "states": states, "transitions": transitions,
         "traces_validated_against_impl": len(replayed),
